@@ -4,6 +4,7 @@ import (
 	"bytes"
 	"encoding/xml"
 	"fmt"
+	"os"
 	"strings"
 	"time"
 
@@ -274,6 +275,13 @@ func (c10) Exec(c *core.Case) (out *core.Outcome) {
 				b := []byte(routes.RetentionXML(mode, until))
 				mustOK(root.Do(s3c.ObjectSub("PUT", bkt, key, "retention", b, KV{K: "Content-MD5", V: s3c.MD5b64(b)})), "retention")
 				v.Mode, v.Until = mode, until.Truncate(time.Second)
+				if os.Getenv("VGWSIM_DEBUG") != "" {
+					gm, gu, ok := c10GetRetention(e, bkt, v, p.Versioned)
+					fmt.Fprintf(os.Stderr, "C10 setup retention sent %s ; read back %s %s %v\n", b, gm, gu, ok)
+				}
+				if gm, gu, ok := c10GetRetention(e, bkt, v, p.Versioned); ok && (gu.Before(v.Until.Add(-time.Second)) || gm != mode) {
+					o.Violate("lock-circumvented", "C10/retention/stored-weaker-than-acknowledged", "set-up: PutObjectRetention %s until %s was acknowledged, the stored retention is %s until %s", mode, v.Until.UTC().Format(time.RFC3339), gm, gu.UTC().Format(time.RFC3339))
+				}
 			}
 		}
 		if p.Versioned && (i+int(c.Seed))%2 == 0 {
@@ -308,6 +316,9 @@ func (c10) Exec(c *core.Case) (out *core.Outcome) {
 		return e.Root().Do(s3c.GetObject(bkt, v.Key)).Resp
 	}
 	r := sim.Rng(c.Seed, "exec")
+	var reqUntil time.Time
+	var reqMode string
+	var reqVer *c10Ver
 	for i, op := range p.Ops {
 		if len(o.Violations) > 0 {
 			break
@@ -407,6 +418,7 @@ func (c10) Exec(c *core.Case) (out *core.Outcome) {
 			res = cl.Do(s3c.PutVersioning(bkt, "Suspended"))
 		case "retention":
 			until := now().Add(time.Duration(op.Hours) * time.Hour)
+			reqUntil, reqMode, reqVer = until.Truncate(time.Second), op.Mode, v
 			b := []byte(routes.RetentionXML(op.Mode, until))
 			h := append([]KV{{K: "Content-MD5", V: s3c.MD5b64(b)}}, hdr...)
 			rq := s3c.ObjectSub("PUT", bkt, v.Key, "retention", b, h...)
@@ -431,6 +443,21 @@ func (c10) Exec(c *core.Case) (out *core.Outcome) {
 		}
 		o.Evals++
 		o.AddClass("%s|%s|%s|bypass-header=%v|versioned=%v|%s", op.Kind, v.Kind, actorClass, op.Bypass, p.Versioned, statusClass(res.Resp.Status))
+		if op.Kind == "retention" && res != nil && os.Getenv("VGWSIM_DEBUG") != "" {
+			fmt.Fprintf(os.Stderr, "C10 retention op %d hours=%d mode=%s -> %d %s\n", i, op.Hours, op.Mode, res.Resp.Status, abbreviate(string(res.Resp.Body), 200))
+		}
+		if op.Kind == "retention" && res != nil && res.Resp.OK() && reqVer != nil && reqVer.Data != nil {
+			// an acknowledged retention is in force as requested: a date stored earlier than the one the client
+			// sent (whatever zone it was spelled in) leaves the version unprotected while the client believes it is
+			if mode, until, ok := c10GetRetention(e, bkt, reqVer, p.Versioned); ok {
+				if until.Before(reqUntil.Add(-time.Second)) || mode != reqMode {
+					o.Violate("lock-circumvented", "C10/retention/stored-weaker-than-acknowledged", "op %d: PutObjectRetention %s until %s was acknowledged, the stored retention is %s until %s", i, reqMode, reqUntil.UTC().Format(time.RFC3339), mode, until.UTC().Format(time.RFC3339))
+				} else {
+					o.Probe("retention_read_back_as_requested")
+				}
+			}
+		}
+		reqVer = nil
 		desc := fmt.Sprintf("op %d: %s on %q (protection %s, versioned=%v) by %s (bypass header %v) -> %d %s", i, op.Kind, v.Key, v.Kind, p.Versioned, op.Actor, op.Bypass, res.Resp.Status, res.Resp.ErrCode())
 		// invariants
 		for j, tv := range vers {
